@@ -274,6 +274,9 @@ def Kind.matchesType : Kind → RType → Bool
   | .element, _ => false
   | .any, _ => true
 
+def Kind.name : Kind → String
+  | .type => "type" | .element => "element" | .any => "any"
+
 def Kind.matchesTag : Kind → String → Bool
   | .type, t => t == "complexType" || t == "simpleType"
   | .element, t => t == "element"
@@ -282,6 +285,27 @@ def Kind.matchesTag : Kind → String → Bool
 /-- the first half of `find_node_by_xml_name`: among the nodes read so far (own, then the importer's) -/
 def lookupRead (d : Doc) (xmlName : String) (ns : Option Ns) (kind : Kind) : Option RNode :=
   (d.nodes ++ d.knownNodes).find? (fun n => n.rtype.xmlName == some xmlName && n.inNs == ns && kind.matchesType n.rtype)
+
+/-- `find_global_component_in_xml_doc`: the first global component (child of a `schema`) in document
+    order of the wanted kind, in a schema of the wanted namespace, whose `name` attribute, prefix
+    stripped, equals the wanted name -/
+def findGlobalComponent (ctx : Ctx) (d : Doc) (xmlName : String) (ns : Option Ns) (kind : Kind) :
+    Option (XNode × List XNode) :=
+  ctx.allElems.find? (fun (n, anc) =>
+    match anc.head? with
+    | none => false
+    | some schema =>
+      schema.tag == "schema" && kind.matchesTag n.tag &&
+      (match ns, schema.attr? "targetNamespace" with
+       | some w, some t => w.uri == t
+       | _, _ => true) &&
+      (match n.attr? "name" with
+       | some nm => (resolveType d nm).1 == xmlName
+       | none => false))
+
+/-- `global_component_exists` -/
+def globalComponentExists (ctx : Ctx) (d : Doc) (xmlName : String) (ns : Option Ns) (kind : Kind) : Bool :=
+  (lookupRead d xmlName ns kind).isSome || (findGlobalComponent ctx d xmlName ns kind).isSome
 
 /-! ### nodes (node.rs, structures/*, field.rs) — one mutual, fuel-driven block -/
 
@@ -310,24 +334,18 @@ def findNodeByXmlName (ctx : Ctx) (xmlName : String) (ns : Option Ns) (kind : Ki
     match lookupRead d xmlName ns kind with
     | some n => pure (some n)
     | none =>
-      -- try_to_find_node_by_xml_name_in_xml_doc: the first global component (child of a `schema`) in
-      -- document order of the wanted kind, in a schema of the wanted namespace, whose `name`
-      -- attribute, prefix stripped, equals the wanted name
+      -- try_to_find_node_by_xml_name_in_xml_doc, with its re-entrancy guard
       let d ← getDoc
-      let cand := ctx.allElems.find? (fun (n, anc) =>
-        match anc.head? with
-        | none => false
-        | some schema =>
-          schema.tag == "schema" && kind.matchesTag n.tag &&
-          (match ns, schema.attr? "targetNamespace" with
-           | some w, some t => w.uri == t
-           | _, _ => true) &&
-          (match n.attr? "name" with
-           | some nm => (resolveType d nm).1 == xmlName
-           | none => false))
-      match cand with
+      match findGlobalComponent ctx d xmlName ns kind with
       | none => pure none
-      | some (n, anc) => okOrNone (tryFromNode n { ctx with ancestors := anc } fuel)
+      | some (n, anc) =>
+        let key := (xmlName, ns.map (·.uri), kind.name)
+        if d.resolving.contains key then pure none
+        else
+          modifyDoc fun d => { d with resolving := d.resolving ++ [key] }
+          let r ← okOrNone (tryFromNode n { ctx with ancestors := anc } fuel)
+          modifyDoc fun d => { d with resolving := d.resolving.dropLast }
+          pure r
 
 /-- `Field::try_from_node` -/
 def fieldFromNode (node : XNode) (ctx : Ctx) : Nat → NM Field
@@ -351,9 +369,14 @@ def fieldFromNode (node : XNode) (ctx : Ctx) : Nat → NM Field
                  isAny := false }
       let ns := nsRef.bind (lookupNs d)
       let kind := if node.tag == "element" then Kind.element else Kind.any
-      let refNode ← findNodeByXmlName ctx xmlName ns kind fuel
-      let refNode ← liftOpt refNode .nodeNotFound
-      let xmlName' ← liftOpt refNode.rtype.xmlName .invalidReference
+      -- an element reference only needs the element to exist; it is not built here
+      let xmlName' ← if kind == Kind.element then do
+          if !(globalComponentExists ctx d xmlName ns kind) then throw Err.nodeNotFound
+          pure xmlName
+        else do
+          let refNode ← findNodeByXmlName ctx xmlName ns kind fuel
+          let refNode ← liftOpt refNode .nodeNotFound
+          liftOpt refNode.rtype.xmlName .invalidReference
       return { xmlName := xmlName', rustName := rustName,
                rustType := .other (xmlNameToRustName xmlName') (ns.map (·.rustModName)),
                isOptional := occ.isOptional, isVec := occ.isVec, tns := ns, isAttribute := occ.isAttribute,
